@@ -20,6 +20,7 @@ HARNESS_MODULES = {
     'C02': ['c02_errors'],
     'C03': ['framing:shards_c03'],
     'C04': ['framing:shards_c04'],
+    'C05': ['c05_canonical'],
     'C11': ['c11_prims'],
     'C12': ['c12_vectors'],
     'C17': ['c17_version'],
@@ -74,6 +75,7 @@ def write_replay(prop, shard, args, replay):
 def check_property(prop, tier, seed, only=None):  # pylint: disable=too-many-locals,too-many-branches,too-many-statements
     start = time.time()
     from symcheck import chx  # pylint: disable=import-outside-toplevel
+    chx.preinstall_codecs()
     lemma_rows = chx.enable_truediv([1, 2, 4])
     from symcheck.harness import registry  # pylint: disable=import-outside-toplevel
     registry.import_all()   # before forking: importing under the CrossHair tracer is very slow
@@ -91,6 +93,7 @@ def check_property(prop, tier, seed, only=None):  # pylint: disable=too-many-loc
     results = run_shards(symbolic, progress)
 
     violations, known_hits, harness_errors, rows = [], [], [], []
+    unreproduced = []
     reruns = []
     masks = set()
     for label, res in results.items():
@@ -119,6 +122,8 @@ def check_property(prop, tier, seed, only=None):  # pylint: disable=too-many-loc
             elif outcome[0] == 'known':
                 known_hits.append(outcome[1])
                 reruns.append(outcome[2])
+            elif outcome[0] == 'unreproduced':
+                unreproduced.append((label, outcome[1]))
             else:
                 harness_errors.append((label, outcome[1]))
 
@@ -142,9 +147,17 @@ def check_property(prop, tier, seed, only=None):  # pylint: disable=too-many-loc
                 outcome = triage(prop, shard, res, [], row)
                 if outcome[0] == 'violation':
                     violations.append(outcome[1])
+                elif outcome[0] == 'unreproduced':
+                    unreproduced.append((label, outcome[1]))
                 else:
                     harness_errors.append((label, outcome[1]))
 
+    # a counterexample that the real code does not reproduce is a gap of the engine's library models (never a
+    # violation): the shard is inconclusive.  More than a handful means the harness or the layer is wrong.
+    for label, message in unreproduced:
+        _log('NOT-REPRODUCED %s: %s' % (label, message[:400]))
+    if len(unreproduced) > max(5, len(rows) // 25):
+        harness_errors.append(('replay', '%d counterexamples did not reproduce natively' % len(unreproduced)))
     lemma_rows.extend(chx.check_masks(masks))
     for lrow in lemma_rows:
         if lrow['result'] not in ('unsat', 'skipped'):
@@ -189,7 +202,8 @@ def triage(prop, shard, res, known, row):
     row['replay'] = replay
     if replay.get('outcome') not in ('false', 'exception'):
         row['verdict'] = 'NOT-REPRODUCED'
-        return ('error', 'counterexample %r does not reproduce natively: %r (symbolic message: %s)' % (
+        row['symbolic_message'] = res['message'][:400]
+        return ('unreproduced', 'counterexample %r does not reproduce natively: %r (symbolic message: %s)' % (
             args, replay, res['message'][:300]))
     if replay.get('outcome') == 'exception' and not (replay.get('site') or [None, None])[1]:
         # no frame of the repository on the traceback: the harness itself failed
